@@ -396,36 +396,43 @@ theorem gen_scp_from_bytestring (q : SDP) (c0 s0 : Int) (bs : List Nat) (nArgs :
       simp only [hs4, List.getD_cons_zero, List.getD_cons_succ]
       have hlen : ((bytesInt data).length : Int) = (data.length : Int) := by simp [bytesInt]
       rw [hlen]
+      have c1 : ((nArgs : Int) ≥ 1 ∧ (data.length : Int) ≥ 4) ↔ (nArgs ≥ 1 ∧ data.length ≥ 4) := by omega
+      have c1' : ((data.length : Int) ≥ 4 ∧ (nArgs : Int) ≥ 1) ↔ (nArgs ≥ 1 ∧ data.length ≥ 4) := by omega
+      have c2 : ((nArgs : Int) ≥ 2 ∧ (data.length : Int) ≥ 8) ↔ (nArgs ≥ 2 ∧ data.length ≥ 8) := by omega
+      have c2' : ((data.length : Int) ≥ 8 ∧ (nArgs : Int) ≥ 2) ↔ (nArgs ≥ 2 ∧ data.length ≥ 8) := by omega
+      have c3 : ((nArgs : Int) ≥ 3 ∧ (data.length : Int) ≥ 12) ↔ (nArgs ≥ 3 ∧ data.length ≥ 12) := by omega
+      have c3' : ((data.length : Int) ≥ 12 ∧ (nArgs : Int) ≥ 3) ↔ (nArgs ≥ 3 ∧ data.length ≥ 12) := by omega
+      simp only [c1, c1', c2, c2', c3, c3']
       by_cases h1 : nArgs ≥ 1 ∧ data.length ≥ 4
-      · have h1' : ((nArgs : Int) ≥ 1 ∧ (data.length : Int) ≥ 4) := by omega
+      · skip
         have u1 := unpack_I data 0 (by omega)
         simp only [Nat.cast_zero] at u1
-        simp only [h1, h1', and_self, if_true, u1, List.getD_cons_zero]
+        simp only [h1, and_self, if_true, u1, List.getD_cons_zero]
         by_cases h2 : nArgs ≥ 2 ∧ data.length ≥ 8
-        · have h2' : ((nArgs : Int) ≥ 2 ∧ (data.length : Int) ≥ 8) := by omega
+        · skip
           have u2 := unpack_I data 4 (by omega)
           have e4 : (0 : Int) + 4 = ((4 : Nat) : Int) := rfl
-          simp only [h2, h2', and_self, if_true, e4, u2, List.getD_cons_zero]
+          simp only [h2, and_self, if_true, e4, u2, List.getD_cons_zero]
           by_cases h3 : nArgs ≥ 3 ∧ data.length ≥ 12
-          · have h3' : ((nArgs : Int) ≥ 3 ∧ (data.length : Int) ≥ 12) := by omega
+          · skip
             have u3 := unpack_I data 8 (by omega)
             have e8 : ((4 : Nat) : Int) + 4 = ((8 : Nat) : Int) := rfl
             have e12 : ((8 : Nat) : Int) + 4 = ((12 : Nat) : Int) := rfl
-            simp only [h3, h3', and_self, if_true, e8, e12, u3, List.getD_cons_zero]
+            simp only [h3, and_self, if_true, e8, e12, u3, List.getD_cons_zero]
             rw [← hlen, pySlice_drop data 12 (by omega)]
             simp [excStr, scpState, optI, bytesInt, hd]
-          · have h3' : ¬ ((nArgs : Int) ≥ 3 ∧ (data.length : Int) ≥ 12) := by omega
+          · skip
             have e8 : ((4 : Nat) : Int) + 4 = ((8 : Nat) : Int) := rfl
-            simp only [h3, h3', if_false, e8]
+            simp only [h3, if_false, e8]
             rw [← hlen, pySlice_drop data 8 (by omega)]
             simp [excStr, scpState, optI, bytesInt, hd]
-        · have h2' : ¬ ((nArgs : Int) ≥ 2 ∧ (data.length : Int) ≥ 8) := by omega
+        · skip
           have e4 : (0 : Int) + 4 = ((4 : Nat) : Int) := rfl
-          simp only [h2, h2', if_false, e4]
+          simp only [h2, if_false, e4]
           rw [← hlen, pySlice_drop data 4 (by omega)]
           simp [excStr, scpState, optI, bytesInt, hd]
-      · have h1' : ¬ ((nArgs : Int) ≥ 1 ∧ (data.length : Int) ≥ 4) := by omega
-        simp only [h1, h1', if_false]
+      · skip
+        simp only [h1, if_false]
         have e0 : (0 : Int) = ((0 : Nat) : Int) := rfl
         rw [← hlen, e0, pySlice_drop data 0 (by omega)]
         simp [excStr, scpState, optI, bytesInt, hd]
